@@ -279,7 +279,8 @@ Qed.
 Ltac cursub_tac k :=
   let k0 := fresh "k0" in let Hw0 := fresh "Hw0" in
   unfold cursub; sp; intros k0 ? ? ? ? Hw0; by_idx k0 k;
-  [try discriminate; try (inversion Hw0; subst; try apply incl_refl) | eauto].
+  [try discriminate; try (inversion Hw0; subst; try apply incl_refl)
+  | try match goal with O : Order _ ?st |- _ => eapply (o_cursub _ st O); eassumption end].
 
 Lemma order_work c st k ch : cfg_ok c -> (k < c_shards c)%nat -> Order c st -> Order c (work_step c k ch st).
 Proof.
